@@ -379,6 +379,10 @@ package vm
 //@   ensures[C06] @reserved reservedKept(vm)
 //@   ensures[C06] @loadfail result1 == nil ==> bit(vm.st.Flags[0], state.FLAG_LOADFAIL) == old(bit(vm.st.Flags[0], state.FLAG_LOADFAIL))
 //@   ensures[C05,C06] @calls count(extcalls) <= old(count(extcalls)) + 1 && (result1 == nil ==> count(extcalls) == old(count(extcalls)) + 1)
+// the language changes only together with the LANG flag, which makes Run refresh the context before the next lookup (C18)
+//@   ensures[C18] @lang vm.st.Language == old(vm.st.Language) || fl(vm, state.FLAG_LANG)
+//@   ensures[C18] @switch result1 == nil && fl(vm, state.FLAG_LANG) && isoKnown(result0) ==> vm.st.Language != nil && vm.st.Language.Code == isoPart3(result0)
+//@   ensures[C18] @badcode result1 == nil && fl(vm, state.FLAG_LANG) && !isoKnown(result0) && result0 != "" ==> vm.st.Language == old(vm.st.Language)
 //@   loop 1 modifies vm.st.Flags[*]
 //@   loop 1 invariant @vm vmOk(vm)
 //@   loop 1 invariant[C06] @reserved reservedKept(vm) && bit(vm.st.Flags[0], state.FLAG_LOADFAIL) == old(bit(vm.st.Flags[0], state.FLAG_LOADFAIL))
@@ -420,6 +424,7 @@ package vm
 //@     && (uint16(old(loadSize(b))) > 0 ==> len(topScope(vm)[old(loadSym(b))]) <= int(uint16(old(loadSize(b)))))
 //@   ensures[C05] @failed result1 != nil ==> unchanged(cac(vm.ca).CacheUseSize)
 //@     && in(old(loadSym(b)), topScope(vm)) == old(in(loadSym(b), topScope(vm))) && topScope(vm)[old(loadSym(b))] == old(topScope(vm)[loadSym(b)])
+//@   ensures[C18] @lang vm.st.Language == old(vm.st.Language) || fl(vm, state.FLAG_LANG)
 
 // MAP <symbol>
 //@ func (*Vm).runMap
@@ -452,6 +457,7 @@ package vm
 //@   ensures @decode old(!okStr(b, 0)) ==> result1 != nil && count(extcalls) == old(count(extcalls))
 //@   ensures[C05] @once count(extcalls) <= old(count(extcalls)) + 1 && (result1 == nil ==> count(extcalls) == old(count(extcalls)) + 1)
 //@   ensures[C05] @mapped result1 == nil ==> in(old(loadSym(b)), vm.pg.cacheMap) && vm.pg.cacheMap[old(loadSym(b))] == scopeOf(vm, old(loadSym(b)))[old(loadSym(b))]
+//@   ensures[C18] @lang vm.st.Language == old(vm.st.Language) || fl(vm, state.FLAG_LANG)
 
 // ---- menu instructions: change the current menu only ----
 //@ modset menuMods(vm) = vm.mn.menu, vm.mn.menu[*], vm.mn.sink, vm.mn.pageCount, vm.mn.browse
@@ -523,6 +529,7 @@ package vm
 //@     ==> result1 == nil && isMoveCatch(result0) && flagsKept(vm) && typeis[InvalidInputError](vm.pg.err)
 //@     && (vm.st.input != nil ==> as[InvalidInputError](vm.pg.err).input == inputStr(vm))
 //@   ensures[C03] @loop len(b) == 0 && old(fl(vm, state.FLAG_READIN)) && !old(fl(vm, state.FLAG_TERMINATE)) && (depth(vm.st) == 0 || state.last(vm.st) == "_catch" || state.last(vm.st) == "") ==> result1 != nil
+//@   ensures[C18] @langflag fl(vm, state.FLAG_LANG) == old(fl(vm, state.FLAG_LANG))
 
 // ---- the instruction loop ----
 // Session invariant carried across every instruction (C08): the VM object is
@@ -535,8 +542,20 @@ package vm
 //@ pred sameParts(vm) = vm.st == old(vm.st) && vm.ca == old(vm.ca) && vm.pg == old(vm.pg) && vm.rs == old(vm.rs) && vm.sizer == old(vm.sizer)
 //@   && (vm.sizer != nil ==> vm.sizer.outputSize == old(vm.sizer.outputSize))
 //@ pred untouched(vm) = posKept(vm) && flagsKept(vm) && count(extcalls) == old(count(extcalls)) && count(codegets) == old(count(codegets)) && levels(vm.ca) == old(levels(vm.ca))
+// the context carries the session's language (C18)
+//@ pred langInCtx(ctx, st) = st.Language != nil ==> db.ctxHasLang(ctx) && db.ctxLangCode(ctx) == st.Language.Code
 //@ func (*Vm).Run
-//@   serves C03, C06, C08, C20, C05, C04
+//@   serves C03, C06, C08, C20, C05, C04, C18
+//@   requires[C18] @lang fl(vm, state.FLAG_LANG) || langInCtx(ctx, vm.st)
+//@   loop 1 invariant[C18] @lang fl(vm, state.FLAG_LANG) || langInCtx(ctx, vm.st)
+// every instruction handler gets the session's language: LOAD/RELOAD look up and call external functions,
+// MOVE/INCMP/CATCH look up code (the error/dead-end checks after a handler run in the same iteration and
+// look up only the catch node's code, which has no translations)
+//@   callsite (*vm.Vm).runLoad assert[C18] @lang langInCtx(ctx, vm.st)
+//@   callsite (*vm.Vm).runReload assert[C18] @lang langInCtx(ctx, vm.st)
+//@   callsite (*vm.Vm).runMove assert[C18] @lang langInCtx(ctx, vm.st)
+//@   callsite (*vm.Vm).runInCmp assert[C18] @lang langInCtx(ctx, vm.st)
+//@   callsite (*vm.Vm).runCatch assert[C18] @lang langInCtx(ctx, vm.st)
 //@   requires runInv(vm, b)
 //@   requires session(vm)
 //@   requires[C08] lockstep(vm)
@@ -568,7 +587,8 @@ package vm
 // Render: whatever is returned passed the final size check of the page (C01);
 // a browse error is turned into the catch node's page.
 //@ func (*Vm).Render
-//@   serves C01
+//@   serves C01, C18
+//@   requires[C18] @lang fl(vm, state.FLAG_LANG) || langInCtx(ctx, vm.st)
 //@   requires vmOk(vm) && noWrap(vm) && render.pageOk(vm.pg) && session(vm)
 //@   requires[C08] lockstep(vm)
 //@   modifies everything except f:engine., f:render.Sizer.outputSize, f:state.State.Code, f:state.State.Flags, f:state.State.BitSize, f:state.State.input, count(extcalls), count(codegets)
